@@ -107,7 +107,19 @@ pub enum Step {
     Commit { r: usize, t: usize, spill_fault: Option<u32>, per_addr: bool },
     Abandon { r: usize, t: usize },
     Craft { r: usize, t: Option<usize>, items: Vec<CraftItem> },
-    Hello { a: usize, b: usize },
+    Hello {
+        a: usize,
+        b: usize,
+        /// The notification travels as a hello message through the network (None = direct call).
+        #[serde(default)]
+        fault: Option<NetFault>,
+    },
+    /// `a` subscribes at `b` (push subscription): `b` records the advertised sample in its cache.
+    Subscribe { a: usize, b: usize, sid: u64, fault: NetFault },
+    /// `a` unsubscribes at `b` (decode path only).
+    Unsubscribe { a: usize, b: usize, fault: NetFault },
+    /// `b` pushes to `a`; see `push.rs` for `mode`.
+    Push { b: usize, a: usize, sid: u64, buf: Option<usize>, fault: NetFault, mode: u8 },
     SessOpen { r: usize },
     SessAct { r: usize, s: usize, cmds: Vec<ActCmd>, fail_at: Option<usize> },
     SessRecv { r: usize, s: usize, from_r: usize, from_s: usize, m: usize, garble: Option<u32> },
